@@ -12,6 +12,8 @@ package main
 
 import (
 	"fmt"
+	"os"
+	"time"
 
 	"verifharness/collh"
 	"verifharness/lib"
@@ -151,8 +153,9 @@ func main() {
 	r := &runner{cfg: cfg, res: res, cf: newCases()}
 	tr := &trunner{runner: r, tcf: newTCases()}
 	xr := &xrunner{runner: r, xcf: newXCases()}
+	ar := &arunner{runner: r, acf: newACases()}
 	if cfg.Replay != "" {
-		replay(r, tr, xr)
+		replay(r, tr, xr, ar)
 	} else {
 		rng := lib.NewRng(cfg.Seed)
 		for _, ops := range corpus() {
@@ -163,6 +166,14 @@ func main() {
 		// routes that share entry objects / store an equal key twice (xfam.go)
 		dupkeys(xr)
 		tree(xr)
+		// read accessors that hand out Go slices / maps, the caller's writes into them, the library's own writers (afam.go)
+		t0 := time.Now()
+		access(ar)
+		accessRandom(ar, lib.NewRng(cfg.Seed^0xA11CE5))
+		creators(ar)
+		if os.Getenv("VERIF_TIMING") != "" {
+			fmt.Fprintf(os.Stderr, "accessor families: %v\n", time.Since(t0))
+		}
 		// results that are types (infer.go, infergen.go)
 		for _, ops := range corpusT() {
 			tr.check(ops, true, true, "corpus-types")
@@ -173,10 +184,11 @@ func main() {
 	res.CorrFiles = append(res.CorrFiles, r.cf.WriteTo(cfg.Out, "cases_heap"))
 	res.CorrFiles = append(res.CorrFiles, tr.tcf.WriteTo(cfg.Out, "cases_infer"))
 	res.CorrFiles = append(res.CorrFiles, xr.xcf.WriteTo(cfg.Out, "cases_heapx"))
+	res.CorrFiles = append(res.CorrFiles, ar.acf.WriteTo(cfg.Out, "cases_heapa"))
 	res.Write(cfg)
 }
 
-func replay(r *runner, tr *trunner, xr *xrunner) {
+func replay(r *runner, tr *trunner, xr *xrunner, ar *arunner) {
 	for _, in := range lib.ReplayInputs(r.cfg.Replay) {
 		var k struct {
 			Kind string `json:"kind"`
@@ -188,6 +200,14 @@ func replay(r *runner, tr *trunner, xr *xrunner) {
 		}
 		if k.Kind == "xhistory" {
 			replayX(xr, in)
+			continue
+		}
+		if k.Kind == "ahistory" {
+			replayA(ar, in)
+			continue
+		}
+		if k.Kind == "creator" {
+			replayCreator(ar, in)
 			continue
 		}
 		var x struct {
